@@ -378,6 +378,12 @@ class ZIPHandler(BaseHandler):
         if not self.config.getboolean("handlers.ZIP.ZIPHandler", "enabled"):
             return False
 
+        # An archive must be a real file: for a member of another archive
+        # getfspath() is an archive-internal name, and probing it would open
+        # a path relative to the working directory.
+        if type(self.vfs) is not VFS_Real:
+            return False
+
         pattern = re.compile(self.config.get("handlers.ZIP.ZIPHandler", "pattern"))
 
         basename = self.selector
